@@ -1,0 +1,69 @@
+//go:build verif
+
+// Add-only exports for the verification harness in /verif (property C10).
+// Nothing here is compiled without the "verif" build tag.
+package trie
+
+import (
+	"encoding/hex"
+	"fmt"
+	"strings"
+)
+
+// VerifHexToCompact exposes hexToCompact.
+func VerifHexToCompact(hex []byte) []byte { return hexToCompact(append([]byte{}, hex...)) }
+
+// VerifCompactToHex exposes compactToHex.
+func VerifCompactToHex(compact []byte) []byte { return compactToHex(append([]byte{}, compact...)) }
+
+// VerifKeybytesToHex exposes keybytesToHex.
+func VerifKeybytesToHex(key []byte) []byte { return keybytesToHex(key) }
+
+func verifRenderFlag(f nodeFlag) string {
+	h := "-"
+	if f.hash != nil {
+		h = "h" + hex.EncodeToString(f.hash)
+	}
+	d := "0"
+	if f.dirty {
+		d = "1"
+	}
+	return fmt.Sprintf("%sg%dd%s", h, f.gen, d)
+}
+
+// verifRender prints the in-memory structure of a node, flags included.
+func verifRender(n node) string {
+	switch n := n.(type) {
+	case nil:
+		return "N"
+	case valueNode:
+		return "V" + hex.EncodeToString(n)
+	case hashNode:
+		return "H" + hex.EncodeToString(n)
+	case *shortNode:
+		return "S(" + hex.EncodeToString(n.Key) + "," + verifRender(n.Val) + "," + verifRenderFlag(n.flags) + ")"
+	case *fullNode:
+		parts := make([]string, 0, 18)
+		for _, c := range n.Children {
+			parts = append(parts, verifRender(c))
+		}
+		parts = append(parts, verifRenderFlag(n.flags))
+		return "F(" + strings.Join(parts, ",") + ")"
+	default:
+		return fmt.Sprintf("?%T", n)
+	}
+}
+
+// VerifDecodeNode exposes decodeNode and renders the result.
+func VerifDecodeNode(hash, buf []byte) (string, error) {
+	n, err := decodeNode(hash, buf, 0)
+	if err != nil {
+		return "", err
+	}
+	return verifRender(n), nil
+}
+
+// VerifDump renders cachegen/cachelimit/root of a trie without touching it.
+func VerifDump(t *Trie) string {
+	return fmt.Sprintf("%d/%d/%s", t.cachegen, t.cachelimit, verifRender(t.root))
+}
